@@ -673,3 +673,35 @@ func (c *Case) RunSupervised(ctx context.Context, e *Env, watchdog time.Duration
 		}
 	}
 }
+
+// Diamond names a node A shared by two parents inside a node set, one of its
+// parents P and another successor B of P (a sibling of A under P).
+type Diamond struct{ A, P, B int }
+
+// Diamonds lists the diamond shapes among nodes.
+func Diamonds(g *gen.DAG, nodes []int) []Diamond {
+	in := map[int]bool{}
+	for _, n := range nodes {
+		in[n] = true
+	}
+	var out []Diamond
+	for _, a := range nodes {
+		var parents []int
+		for _, p := range g.Preds(a) {
+			if in[p] {
+				parents = append(parents, p)
+			}
+		}
+		if len(parents) < 2 {
+			continue
+		}
+		for _, p := range parents {
+			for _, b := range g.SuccSet(p) {
+				if b != a {
+					out = append(out, Diamond{a, p, b})
+				}
+			}
+		}
+	}
+	return out
+}
